@@ -161,7 +161,7 @@ def lifetimes(beh, types, ctxs):
         elif cmd == "compact":
             if cr != "none":
                 steps.append({"op": "arm_crash", "at": COMPACT_HOOK[cr]})
-            steps.append({"op": "compact", "shard": 0, "tag": [i, "compact"], "reclaim_wait_ms": 1500})
+            steps.append({"op": "compact", "shard": c.get("shard", 0), "tag": [i, "compact"], "reclaim_wait_ms": 1500})
             if cr != "none":
                 steps.append({"op": "await_crash", "ms": 4000})
                 ends = True
@@ -226,7 +226,7 @@ def probe_routing(bindir, shards, names=None):
 
 
 def run_behaviour(bindir, beh, *, root, cap, k, types, ctxs, fill=None, epz=None, keep=False, extra_cfg=None,
-                  crash_delay_ms=40, shards=1, shard=0, ctx_names=None):
+                  crash_delay_ms=40, shards=1, shard=0, ctx_names=None, prepared=False):
     """Replay one behaviour. Returns list of per-command observation dicts:
        {i, cmd, model, real: {q: {t: rows}, count: {t: n}, replay: {c: rows}, fs: {...}}, problems: [...]}"""
     root = Path(root)
@@ -241,7 +241,7 @@ def run_behaviour(bindir, beh, *, root, cap, k, types, ctxs, fill=None, epz=None
         cfg.update(extra_cfg)
     lts = lifetimes(beh, types, ctxs)
     back = {v: k for k, v in (ctx_names or {}).items()}
-    if shards > 1:
+    if shards > 1 and not prepared:
         # the model describes ONE shard: every context of the behaviour is given a name that the code routes to
         # shard `shard`; the other shards stay empty (they still take part in start-up, shutdown and fan-out)
         for lt in lts:
@@ -306,6 +306,7 @@ def run_behaviour(bindir, beh, *, root, cap, k, types, ctxs, fill=None, epz=None
                 rec["replay_all"][tag[2]] = decode_rows(o, back)
             elif kind == "fs":
                 rec["fs"] = o["shards"][shard]
+                rec["fs_all"] = o["shards"]
                 rec["uids"] = o.get("uids", {})
         expected_rc = {"crash": (-6, 134), "await_crash": (-6, 134), "shutdown": (0,)}
         if last_ends:
@@ -319,6 +320,111 @@ def run_behaviour(bindir, beh, *, root, cap, k, types, ctxs, fill=None, epz=None
     out = []
     for i, c in enumerate(beh):
         out.append({"i": i, "cmd": c, "real": results.get(i)})
+    return out, problems
+
+
+def gen_cfg2(name, *, cap, k, types_a, types_b, ctxs, gen_len, max_crash=3, max_flush=3, max_compact=3):
+    """Write a Storage2Gen cfg (two active shards, as-built parameterisation) into .work and return its path."""
+    d = core.WORK / "cfg"
+    d.mkdir(parents=True, exist_ok=True)
+    p = d / f"{name}.cfg"
+    p.write_text(f"""SPECIFICATION GenSpec
+CONSTANTS
+  Cap = {cap}
+  K = {k}
+  TypesA = {_set(types_a)}
+  TypesB = {_set(types_b)}
+  Ctxs = {_set(ctxs)}
+  MaxEv = 100
+  MaxCrash = {max_crash}
+  MaxFlush = {max_flush}
+  MaxCompact = {max_compact}
+  Fix = {{}}
+  FlushCrash = {_set(ALL_FLUSH_CRASH)}
+  CompactCrash = {_set(ALL_COMPACT_CRASH)}
+  QuiescentCrash = TRUE
+  CleanRestarts = TRUE
+  GenLen = {gen_len}
+INVARIANT Emit
+CHECK_DEADLOCK FALSE
+""")
+    return p
+
+
+def behaviours2(cfgpath, *, n, gen_len, seed, timeout=300):
+    r = core.tlc("Storage2Gen", cfgpath, workers=1, simulate=n, depth=gen_len + 1, seed_=seed, timeout=timeout)
+    if r.error or r.violated:
+        core.log(r.out[-3000:])
+        raise core.ToolError(f"Storage2Gen failed: {r.error or r.violated}")
+    seen, out = set(), []
+    for b in r.printed("BEH"):
+        key = json.dumps(b, sort_keys=True)
+        if key not in seen:
+            seen.add(key)
+            out.append(b)
+    return out, r
+
+
+def features2(beh):
+    """Feature classes of a two-shard behaviour: per-shard command x crash stage, shard alternation, fired defects."""
+    f = set()
+    for i, c in enumerate(beh):
+        f.add(f"{c['cmd']}:{c.get('crash', 'none')}:{c['sh']}")
+        for x in c["obsA"]["fired"]:
+            f.add("firedA:" + x)
+        for x in c["obsB"]["fired"]:
+            f.add("firedB:" + x)
+        if i > 0:
+            f.add(f"{beh[i-1]['cmd']}@{beh[i-1]['sh']}>{c['cmd']}@{c['sh']}")
+        # a crash inside one shard's pipeline while the other shard holds unflushed events
+        if c.get("crash", "none") != "none":
+            other = "obsB" if c["sh"] == "A" else "obsA"
+            f.add(f"crash:{c['crash']}:other-mem-{'nonempty' if (i > 0 and beh[i-1][other]['memlen'] > 0) else 'empty'}")
+    return f
+
+
+def project2(beh, which):
+    """The behaviour as shard `which` ("A"/"B") sees it: its own and the process-wide commands, the other shard's
+    commands as 'other' (no effect on this shard except the restart its crashes cause, already in the prediction)."""
+    out = []
+    for c in beh:
+        if c["sh"] in (which, "AB"):
+            d = {x: c[x] for x in c if x not in ("obsA", "obsB")}
+            d["obs"] = c["obs" + which]
+        else:
+            d = {"cmd": "other", "of": c["cmd"], "other_crash": c.get("crash", "none"), "obs": c["obs" + which]}
+        out.append(d)
+    return out
+
+
+def run_pair(bindir, beh, *, root, cap, k, types_a, types_b, ctxs, shards, sh_a, sh_b, names_a, names_b, keep=False):
+    """Replay a Storage2Gen behaviour on two shards of one engine. Returns {"A": recs, "B": recs}, problems."""
+    flat = []
+    for c in beh:
+        d = {x: c[x] for x in c if x not in ("obsA", "obsB")}
+        d["obs"] = c["obsA"]
+        if c["cmd"] == "store":
+            d["c"] = (names_a if c["sh"] == "A" else names_b)[c["c"]]
+        if c["cmd"] == "compact":
+            d["shard"] = sh_a if c["sh"] == "A" else sh_b
+        flat.append(d)
+    back = {v: kk for kk, v in list(names_a.items()) + list(names_b.items())}
+    recs, problems = run_behaviour(bindir, flat, root=root, cap=cap, k=k, types=list(types_a) + list(types_b), ctxs=[],
+                                   shards=shards, shard=sh_a, ctx_names=dict((v, v) for v in back), prepared=True, keep=keep)
+    out = {}
+    for which, sh in (("A", sh_a), ("B", sh_b)):
+        pb = project2(beh, which)
+        rs = []
+        for rec in recs:
+            real = rec["real"]
+            if real is not None:
+                real = dict(real)
+                real["q"] = {t: (None if rows is None else [(kk, back.get(cx, cx), ty, e) for (kk, cx, ty, e) in rows])
+                             for t, rows in real["q"].items()}
+                if real.get("fs_all"):
+                    real["fs"] = real["fs_all"][sh]
+            rs.append({"i": rec["i"], "cmd": pb[rec["i"]], "real": real})
+        out[which] = (pb, rs)
     return out, problems
 
 
